@@ -23,6 +23,11 @@ def replay(req):
         return created_files_search(req)
     if req.get('property') == 'C11' or '/region.' in req.get('label', ''):
         return aliasing_cases(req)
+    if req.get('property') == 'C12' and func.split('#')[0] in (
+            'file_builder.FileBuilder.clean', 'cache.Cache.write',
+            'file_builder.FileBuilder._remove_empty_dirs', 'cache.Cache.created_files',
+            'cache.Cache.created_dirs', 'cache.Cache.read_immutable'):
+        return clean_cases(req)
     if func.split('#')[0] in ('file_builder.FileBuilder._make_dirs',
                               'file_builder.FileBuilder._prepare_file_creation',
                               'file_builder.FileBuilder._dirs_to_make'):
@@ -1163,6 +1168,73 @@ def comparison_cases(req):
                         'input': what, 'observed': list(log), 'evaluations': n}
         finally:
             shutil.rmtree(root, ignore_errors=True)
+    # a HASH output that a "reproducible" function rebuilds with the same size and a pinned mtime:
+    # the rebuilt bytes are what is recorded; afterwards an unchanged tree rebuilds nothing and a
+    # tampered output (old bytes put back, same size and mtime) is detected
+    EPOCH = 1600000000 * 10 ** 9
+    for tamper in (False, True):
+        n += 1
+        root = scratch()
+        try:
+            inp, out = os.path.join(root, 'in.txt'), os.path.join(root, 'out.txt')
+            calls = []
+
+            def make_out(b, filename, input_filename):
+                calls.append('make_out')
+                with b.read_text(input_filename, H) as fh:
+                    text = fh.read()
+                write(filename, text)
+                os.utime(filename, ns=(EPOCH, EPOCH))
+
+            def prog(b):
+                b.build_file_with_comparison(out, H, 'make_out', make_out, inp)
+            cache = os.path.join(root, 'c.gz')
+            write(inp, 'AAAA')
+            FileBuilder.build(cache, 'n', prog)
+            write(inp, 'BBBB')
+            FileBuilder.build(cache, 'n', prog)
+            if tamper:
+                write(out, 'AAAA')
+                os.utime(out, ns=(EPOCH, EPOCH))
+            del calls[:]
+            FileBuilder.build(cache, 'n', prog)
+            if bool(calls) != tamper or open(out).read() != 'BBBB':
+                return {'reproduced': True,
+                        'check': 'HASH output rebuilt with identical size and mtime: %s' % (
+                            'tampering not detected' if tamper else 'unchanged output rebuilt'),
+                        'input': 'function pins the mtime; input AAAA -> BBBB; then %s'
+                                 % ('old bytes put back' if tamper else 'nothing changes'),
+                        'observed': {'calls': list(calls), 'content': open(out).read()},
+                        'evaluations': n}
+        finally:
+            shutil.rmtree(root, ignore_errors=True)
+    # one operation declares the same input twice, METADATA first and then HASH: the HASH record
+    # must still detect a content change that keeps size and mtime
+    n += 1
+    root = scratch()
+    try:
+        inp = os.path.join(root, 'in.txt')
+        calls = []
+
+        def reader(b):
+            calls.append('reader')
+            b.declare_read(inp, Mt)
+            b.declare_read(inp, H)
+            return open(inp).read()
+        cache = os.path.join(root, 'c.gz')
+        write(inp, 'AAAA')
+        os.utime(inp, ns=(EPOCH, EPOCH))
+        FileBuilder.build(cache, 'n', lambda b: b.subbuild('reader', reader))
+        write(inp, 'BBBB')
+        os.utime(inp, ns=(EPOCH, EPOCH))
+        del calls[:]
+        r = FileBuilder.build(cache, 'n', lambda b: b.subbuild('reader', reader))
+        if r != 'BBBB' or not calls:
+            return {'reproduced': True, 'check': 'a second declare_read of the same file with HASH '
+                    'is not recorded', 'input': 'declare_read(f, METADATA); declare_read(f, HASH); '
+                    'content changed with size and mtime kept', 'observed': r, 'evaluations': n}
+    finally:
+        shutil.rmtree(root, ignore_errors=True)
     return {'reproduced': False, 'evaluations': n}
 
 
@@ -1348,4 +1420,101 @@ def version_cases(req):
                 finally:
                     shutil.rmtree(root, ignore_errors=True)
                     shutil.rmtree(ref, ignore_errors=True)
+    return {'reproduced': False, 'evaluations': n}
+
+
+# -------------------------------------------------------------------------------------------------
+def clean_cases(req):
+    """C12: clean deletes the recorded outputs (even if modified), the cache file and the created
+    directories that are empty afterwards, and nothing else; twice = once; a build after clean
+    behaves like a first build"""
+    from file_builder import FileBuilder
+    n = 0
+
+    def mk(b, filename, text='x'):
+        write(filename, text)
+        return len(text)
+
+    def prog(root, log):
+        def caught(b):
+            log.append('caught')
+            b.build_file(os.path.join(root, 'out', 'gen', 'partial.txt'), 'mk', mk, 'p')
+            raise ValueError('after a nested output')
+
+        def f(b):
+            log.append('root')
+            b.build_file(os.path.join(root, 'out', 'obj', 'a.txt'), 'mk', mk, 'a')
+            b.build_file(os.path.join(root, 'out', 'longer-name', 'b.txt'), 'mk', mk, 'b')
+            try:
+                b.subbuild('caught', caught)
+            except ValueError:
+                pass
+            return 1
+        return f
+
+    def rel(root, snap):
+        return {os.path.relpath(p, root): (v[0] if v[0] == 'dir' else v[:2])
+                for p, v in snap.items() if p != root}
+
+    scenarios = [
+        ('plain', lambda root: None),
+        ('foreign file planted in a created directory',
+         lambda root: write(os.path.join(root, 'out', 'longer-name', 'user.txt'), 'mine')),
+        ('output modified after the build',
+         lambda root: write(os.path.join(root, 'out', 'obj', 'a.txt'), 'changed by hand')),
+        ('foreign directory planted in a created directory',
+         lambda root: os.makedirs(os.path.join(root, 'out', 'obj', 'userdir'))),
+    ]
+    for name, tamper in scenarios:
+        n += 1
+        root = scratch()
+        try:
+            write(os.path.join(root, 'keep.txt'), 'pre-existing')
+            cache = os.path.join(root, 'state', 'build', 'c.gz')
+            log = []
+            FileBuilder.build(cache, 'n', prog(root, log))
+            tamper(root)
+            foreign = {k: v for k, v in rel(root, snapshot(root)).items()
+                       if k == 'keep.txt' or 'user' in k}
+            FileBuilder.clean(cache, 'n')
+            after = rel(root, snapshot(root))
+            # expected: pre-existing + foreign entries, and the ancestors of foreign entries
+            expect = dict(foreign)
+            for k in list(foreign):
+                d = os.path.dirname(k)
+                while d:
+                    expect[d] = 'dir'
+                    d = os.path.dirname(d)
+            if after != expect:
+                extra = sorted(set(after) - set(expect))
+                missing = sorted(set(expect) - set(after))
+                return {'reproduced': True, 'check': 'clean leaves exactly the foreign entries',
+                        'input': 'build (outputs in out/obj, out/longer-name, a nested output of a '
+                                 'caught failing subbuild, cache in state/build), %s, clean' % name,
+                        'observed': {'left_behind': extra, 'wrongly_removed': missing},
+                        'evaluations': n}
+            before2 = snapshot(root)
+            FileBuilder.clean(cache, 'n')
+            if snapshot(root) != before2:
+                return {'reproduced': True, 'check': 'clean twice differs from clean once',
+                        'input': name, 'evaluations': n}
+            del log[:]
+            FileBuilder.build(cache, 'n', prog(root, log))
+            if sorted(log) != ['caught', 'root']:
+                return {'reproduced': True, 'check': 'a build after clean is not a first build',
+                        'input': name, 'observed': list(log), 'evaluations': n}
+        finally:
+            shutil.rmtree(root, ignore_errors=True)
+    # no cache file: nothing happens
+    n += 1
+    root = scratch()
+    try:
+        write(os.path.join(root, 'keep.txt'), 'k')
+        before = snapshot(root)
+        FileBuilder.clean(os.path.join(root, 'nope', 'c.gz'), None)
+        if snapshot(root) != before:
+            return {'reproduced': True, 'check': 'clean without a cache file changed the tree',
+                    'evaluations': n}
+    finally:
+        shutil.rmtree(root, ignore_errors=True)
     return {'reproduced': False, 'evaluations': n}
